@@ -265,11 +265,24 @@ def check_direction(p, h, v):
     p.chk('cart:direction', cls, float(np.max(np.abs(c64 - d) / (1e-5 * np.abs(d) + 1e-30))), 1.0,
           lambda: 'cart of V1 (%r, %r) = %r, the direction (1, tan h, tan v)/norm is %r' % (h, v, cart, d), rp)
     # cart -> V1 (the float32 vector itself, a python list, and non-unit multiples)
+    def views(o, how):
+        # every view of an object is the same direction, however the object was constructed
+        oc = np.asarray(o.cart).astype(np.float64)
+        p.chk('views:cart_unit_norm:' + how.split('(')[0], cls, abs(math.sqrt(float(oc @ oc)) - 1.0), 1e-6,
+              lambda: 'object made by %s for V1 (%r, %r): cart %r is not a unit vector' % (how, h, v, oc), rp)
+        p.chk('views:cart_direction:' + how.split('(')[0], cls, float(np.max(np.abs(oc - d) / (1e-5 * np.abs(d) + 1e-30))), 1.0,
+              lambda: 'object made by %s for V1 (%r, %r): cart %r, direction is %r' % (how, h, v, oc, d), rp)
+        op = np.asarray(o.projection).astype(np.float64)
+        rf = np.array([math.tan(h), math.tan(v)])
+        p.chk('views:projection:' + how.split('(')[0], cls, float(np.max(np.abs(op - rf) / (1e-5 * np.abs(rf) + 1e-30))), 1.0,
+              lambda: 'object made by %s for V1 (%r, %r): projection %r, expected %r' % (how, h, v, op, rf), rp)
+
     for name, vec in (('f32', cart), ('list', [float(c) for c in cart]), ('x0.1', c64 * 0.1), ('x7.5', c64 * 7.5)):
         o = LighthouseBsVector.from_cart(vec)
         p.chk('cart:roundtrip', cls, adiff(o), 1.0,
               lambda: 'V1 (%r, %r) -> cart -> from_cart(%s) gives (%r, %r)' % (
                   h, v, name, o.lh_v1_horiz_angle, o.lh_v1_vert_angle), rp)
+        views(o, 'from_cart(%s)' % name)
     # projection
     proj = np.asarray(b.projection)
     if VERBOSE:
@@ -282,6 +295,7 @@ def check_direction(p, h, v):
         p.chk('proj:roundtrip', cls, adiff(o), 1.0,
               lambda: 'V1 (%r, %r) -> projection -> from_projection(%s) gives (%r, %r)' % (
                   h, v, name, o.lh_v1_horiz_angle, o.lh_v1_vert_angle), rp)
+        views(o, 'from_projection(%s)' % name)
     # V2 (pure double precision: same relative tolerance is generous)
     a1, a2 = b.lh_v2_angle_1, b.lh_v2_angle_2
     if VERBOSE:
@@ -290,6 +304,7 @@ def check_direction(p, h, v):
     p.chk('v2:roundtrip', cls, adiff(o), 1.0,
           lambda: 'V1 (%r, %r) -> V2 (%r, %r) -> from_lh2 gives (%r, %r)' % (
               h, v, a1, a2, o.lh_v1_horiz_angle, o.lh_v1_vert_angle), rp)
+    views(o, 'from_lh2')
     # meaning of the V2 angles: the direction lies in the first light plane (tilt -30 deg, rotor angle
     # a1) and in the second (tilt +30 deg, rotor angle a2). |n.d| is the sine of the angular distance
     # between direction and plane: 1e-9 rad is double precision with a wide margin.
